@@ -713,6 +713,13 @@ class Evaluator:
                 return {"set": set, "list": list, "dict": dict}[fn.id]()
             if fn.id == "set" and len(args) == 1 and isinstance(args[0], (list, tuple, set)):
                 return set(args[0])
+            if fn.id == "next" and 1 <= len(args) <= 2 and isinstance(args[0], (list, tuple)) and not kws:
+                # next(<generator expression>, default): the generator was evaluated eagerly (its elements have no effects)
+                if args[0]:
+                    return args[0][0]
+                if len(args) == 2:
+                    return args[1]
+                raise Raised("StopIteration")
             if fn.id == "str" and args:
                 a = args[0]
                 return str(a) if isinstance(a, (int, float, str)) else Cat([a])
